@@ -64,14 +64,15 @@ def session_case_term(res):
             elif st.get("panic") and i == len(errs):
                 gres.append("GPanic")
         trees = trees[:len(gres)]
-        items.append("{| g_trees := [%s]; g_results := [%s]; g_out := %s; g_counters := [%s] |}" % (
+        items.append("{| g_trees := [%s]; g_results := [%s]; g_out := %s; g_counters := [%s]; g_reports := [%s] |}" % (
             ";".join(trees), ";".join(gres), bytes_term(st.get("out", [])),
-            ";".join(str(c) for c in (st.get("counters") or []))))
+            ";".join(str(c) for c in (st.get("counters") or [])),
+            ";".join((st.get("reports") or [])[:len(gres)])))
         if st.get("panic"):
             break
     if res.get("hang") and res.get("inflight"):
         trees = res["inflight"]
-        items.append("{| g_trees := [%s]; g_results := [%s]; g_out := \"\"; g_counters := [] |}" % (
+        items.append("{| g_trees := [%s]; g_results := [%s]; g_out := \"\"; g_counters := []; g_reports := [] |}" % (
             ";".join(trees), ";".join(["GValue VNil"] * (len(trees) - 1) + ["GHang"])))
     if not items:
         return "(@nil ginput)"
